@@ -346,6 +346,28 @@ def exact_cases(draw, tier):
     return {"A": np.ascontiguousarray(A), "P": P, "Q": Qr, "kind": kind, "r_built": r_built}
 
 
+@st.composite
+def long_exact_cases(draw, tier):
+    """A = B C with small-integer factors, one long dimension (crossing the blocking sizes) against <= 4: exact rank
+    from the integer oracle; also plain long integer / sparse patterns."""
+    Lg, sh = draw(gen.long_dim(cap=257 if tier == "quick" else 520)), draw(st.integers(1, 4))
+    if draw(st.integers(0, 3)):
+        r = draw(st.integers(0, sh))
+        if r == 0:
+            A = np.zeros((Lg, sh, 4))
+        else:
+            B, _ = draw(gen.long_qarray(Lg, r, "int"))
+            C = draw(gen.qmat(r, sh, patterns=("int",)))
+            A = ref.qmm(B, C)
+        kind = "long:bc"
+    else:
+        A, pat = draw(gen.long_qarray(Lg, sh, draw(st.sampled_from(["int", "sparse"]))))
+        kind = pat
+    if draw(st.booleans()):
+        A = np.ascontiguousarray(ref.conjT(A))
+    return {"A": np.ascontiguousarray(A), "P": None, "Q": None, "kind": kind, "r_built": -1}
+
+
 def check_exact(case):
     out = Out()
     A, P, Qr = case["A"], case["P"], case["Q"]
@@ -392,8 +414,12 @@ def check_exact(case):
     if rk is not None:
         out.true("rank(A^H):equals rank(A)", rk == r, f"rank(A^H)={rk}, " + msg, tags=htags, value=rk)
     # invariance under exactly invertible factors (product proven exact -> rank is r by Sylvester)
-    PA, e1 = exact_qmm(P, A)
-    PAQ, e2 = exact_qmm(PA, Qr)
+    if P is None:                 # long-dimension cases: no exactly invertible m x m factor is drawn
+        PA = PAQ = None
+        e1 = e2 = False
+    else:
+        PA, e1 = exact_qmm(P, A)
+        PAQ, e2 = exact_qmm(PA, Qr)
     if e1 and e2:
         sp = ref.svals(PAQ)
         if r == 0 or sp[r - 1] >= DOMAIN_REL * sp[0]:
@@ -828,6 +854,8 @@ PROPERTY = Property(
         Clause("rank_null_exact_inputs", check_exact, strategy=exact_cases, budget={"quick": 2000, "thorough": 32000}),
         Clause("rank_null_prescribed_spectrum", check_spectral, strategy=spectral_cases,
                budget={"quick": 1600, "thorough": 28000}),
+        Clause("rank_null_long_dimension", check_exact, strategy=long_exact_cases, budget={"quick": 24, "thorough": 240},
+               shrink=False),
         Clause("dieudonne", check_dieudonne, strategy=dieudonne_cases, budget={"quick": 800, "thorough": 16000}),
         Clause("moore", check_moore, strategy=moore_cases, budget={"quick": 800, "thorough": 16000}),
         Clause("rejections", check_reject, enumerate=enum_reject, budget={"quick": 0, "thorough": 0}, max_shards=2),
